@@ -161,6 +161,14 @@ def pipe_shapes(tier):
     # f: redefined GLOBAL, origin and code length symbolic
     S.append(mk('redefined-global', [('label', 'a'), ('data', '.byte', [C(1), C(2)]), ('zero', V('n')), ('label', 'e')], N,
                 global_zone=(Sym('gs', 0, 0x40), Sym('ge', 0x20, 0x80)), origin=Sym('o0', 0, 0x90)))
+    # f2: an origin given relative to GLOBAL itself (named explicitly) is offset from the start of the redefined GLOBAL
+    S.append(mk('global-relative-origin', [
+        ('org', V('k'), 'GLOBAL'), ('label', 'a'), ('data', '.byte', [C(7), C(8)]), ('org', V('g'), None), ('label', 'b'),
+        ('instr', 'nop', None), ('org', C(2), 'GLOBAL'), ('label', 'c'), ('data', '.2byte', [L('a'), L('b'), L('c')])],
+        {'k': (-2, 0x50), 'g': (0, 0x90)}, global_zone=(Sym('gs', 0, 0x40), Sym('ge', 0x30, 0x80)), origin=Sym('o0', 0, 0x80)))
+    S.append(mk('global-relative-origin-default-global', [
+        ('org', V('k'), 'GLOBAL'), ('label', 'a'), ('data', '.byte', [C(7)]), ('memzone', 'GLOBAL'), ('data', '.2byte', [L('a')])],
+        {'k': (0, 0x50)}, expect=('ok',)))
     # g: predefined zone and a redefined GLOBAL
     S.append(mk('predefined-zone-vs-global', [('memzone', 'Z'), ('data', '.byte', [C(1), C(2)])], {},
                 global_zone=(0x10, 0x3f), zones={'Z': (Sym('zs', 0, 0x50), Sym('ze', 0, 0x60))}, origin=0x10))
